@@ -38,6 +38,9 @@ Tags(r) ==
      \o (IF r.back = r.v THEN <<>> ELSE <<"back">>)
      \o (IF r.eq THEN <<>> ELSE <<"eq">>)
      \o (IF r.decl.entries = <<>> \/ Sig(Collect(r.decl)) = Sig(s) THEN <<>> ELSE <<"collect">>)
+     \* other representations / views of the same value (alt-repr, reencode, container, attr, asdict, repr): the
+     \* harness compares them with the wire and value judged above; any disagreement is a failed check
+     \o [j \in 1 .. Len(r.views) |-> "view/" \o r.views[j]]
      \o (IF r.tree # L THEN <<>> ELSE        \* edits are positions in the tree: judged only on a correct base encoding
          Flat([j \in 1 .. Len(r.edits) |->
                LET e == r.edits[j]
